@@ -69,85 +69,6 @@ theorem fc_fixpoint (tls filter : Shape) (h1 : keysOK tls = true) (h2 : keysOK f
 
 /-! ### Host -/
 
-theorem dedupLast_keys_sub : (ms : List (String × Json)) → ∀ m ∈ dedupLast ms, m ∈ ms
-  | [], _, h => by simp [dedupLast] at h
-  | (k, v) :: r, m, h => by
-    simp only [dedupLast] at h
-    split at h
-    · exact List.mem_cons_of_mem _ (dedupLast_keys_sub r m h)
-    · simp only [List.mem_cons] at h
-      rcases h with rfl | h
-      · simp
-      · exact List.mem_cons_of_mem _ (dedupLast_keys_sub r m h)
-
-theorem dedupLast_nodup : (ms : List (String × Json)) → ((dedupLast ms).map (·.1)).Nodup
-  | [] => by simp [dedupLast]
-  | (k, v) :: r => by
-    simp only [dedupLast]
-    split
-    · exact dedupLast_nodup r
-    · rename_i hno
-      simp only [List.map_cons, List.nodup_cons]
-      refine ⟨?_, dedupLast_nodup r⟩
-      intro hmem
-      simp only [List.mem_map] at hmem
-      obtain ⟨m, hm, hk⟩ := hmem
-      have := dedupLast_keys_sub r m hm
-      apply hno
-      simp only [List.any_eq_true]
-      exact ⟨m, this, by simp [hk]⟩
-
-theorem dedupLast_id : (ms : List (String × Json)) → (ms.map (·.1)).Nodup → dedupLast ms = ms
-  | [], _ => by simp [dedupLast]
-  | (k, v) :: r, h => by
-    simp only [List.map_cons, List.nodup_cons] at h
-    have hno : (r.any fun m => m.1 == k) = false := by
-      rw [Bool.eq_false_iff]
-      intro hany
-      simp only [List.any_eq_true, beq_iff_eq] at hany
-      obtain ⟨m, hm, hk⟩ := hany
-      exact h.1 (by simp only [List.mem_map]; exact ⟨m, hm, hk⟩)
-    simp [dedupLast, hno, dedupLast_id r h.2]
-
-theorem toMeta_nodup (j : Json) : ((toMeta j).map (·.1)).Nodup := by
-  unfold toMeta
-  split
-  · rename_i ms
-    have h := dedupLast_nodup ms
-    generalize dedupLast ms = l at h
-    induction l with
-    | nil => simp
-    | cons m r ih =>
-      simp only [List.map_cons, List.nodup_cons] at h
-      simp only [List.filterMap_cons]
-      split
-      · exact ih h.2
-      · rename_i b hb
-        simp only [List.map_cons, List.nodup_cons]
-        refine ⟨?_, ih h.2⟩
-        intro hmem
-        simp only [List.mem_map, List.mem_filterMap] at hmem
-        obtain ⟨b', ⟨m', hm', hb'⟩, hk⟩ := hmem
-        apply h.1
-        simp only [List.mem_map]
-        refine ⟨m', hm', ?_⟩
-        cases hv : m'.2 <;> simp [hv] at hb'
-        cases hv2 : m.2 <;> simp [hv2] at hb
-        subst hb'; subst hb
-        simpa using hk
-  · simp
-
-theorem toMeta_fromMeta (md : List (String × String)) (h : (md.map (·.1)).Nodup) :
-    toMeta (.obj (md.map (fun m => (m.1, Json.str m.2)))) = md := by
-  unfold toMeta
-  simp only
-  rw [dedupLast_id _ (by simpa [List.map_map, Function.comp_def] using h)]
-  induction md with
-  | nil => simp
-  | cons m r ih =>
-    simp only [List.map_cons, List.nodup_cons] at h
-    simp [ih h.2]
-
 theorem host_keysOK : keysOK hostShape = true := by decide
 
 /-- **Host**: the metadata is rebuilt from `MetaData` on every `MarshalJSON`, non-string `mosn.lb` values are dropped by
